@@ -251,7 +251,18 @@ impl Monitor for C03 {
             (p1, p2)
         };
         let slen = c.k + rng.usize(1, 3 * c.n + 10);
-        let suffix = gen::gen(sclass, c.n, slen, &mut rng);
+        let mut suffix = gen::gen(sclass, c.n, slen, &mut rng);
+        // an eighth of the f64 trials of the views that only compare, subtract and divide their inputs
+        // run in units of 2^-1064 (subnormal values: a base or an extent that "is not normal" is still
+        // a value of the window)
+        let (p1, p2) = if !exact && matches!(c.name, "Roc" | "HLNormalizer" | "BinaryEntropy" | "Min" | "Max") && rng.chance(1, 8) {
+            let s = |v: Vec<f64>| v.into_iter().map(|x| x * 2f64.powi(-532) * 2f64.powi(-532)).collect::<Vec<f64>>();
+            suffix = s(suffix);
+            out.count("f64_trials_in_subnormal_units", 1);
+            (s(p1), s(p2))
+        } else {
+            (p1, p2)
+        };
         out.key(mix(hash_str(&format!("{}{}", c.spec.show(), exact)), mix(gen::hash_f64s(&p1), mix(gen::hash_f64s(&p2), gen::hash_f64s(&suffix)))));
         out.maxi("largest_prefix_to_suffix_magnitude_ratio", {
             let pm = p1.iter().chain(p2.iter()).fold(0f64, |m, x| m.max(x.abs()));
